@@ -157,6 +157,10 @@ type genOpts struct {
 	// Neutral switches off generator features (counterfactual attribution of
 	// known findings); nil = nothing neutralised.
 	Neutral map[string]bool
+	// NumericRun: the first two body lines of every page are bare numbers (each a
+	// paragraph of its own under most leadings: two consecutive number-only
+	// paragraphs, which list detection takes for a numbered list)
+	NumericRun bool
 }
 
 // genDoc draws a document. All randomness comes from r, and neutralising a
@@ -426,6 +430,10 @@ func genDoc(r *rand.Rand, o genOpts) *docSpec {
 				u.Role, u.Text = "body-copy", runningTexts[r.Intn(len(runningTexts))]
 			default:
 				u.Text = phrase(r, tk.Next(), 1+r.Intn(5))
+			}
+			if o.NumericRun && li < 2 && u.Role == "body" {
+				u.Role, u.Text = "body-numeric", fmt.Sprint(uniqueNum())
+				d.feat("body.numeric-run")
 			}
 			if repeatBody && li == len(ys)/2 {
 				u.Role, u.Text = "body-repeat", repeatText
